@@ -337,6 +337,9 @@ ex.extra_models.update({
     'RelationalSlab::delete': rec('slab_delete', _ok_(z3.BoolVal(True), 'Result<bool, RelationalError>')),
     'RelationalSlab::restore_row': rec('slab_restore_row', _ok_(UNIT, 'Result<(), RelationalError>')),
     'RelationalSlab::restore_deleted_row': rec('slab_restore_deleted', _ok_(UNIT, 'Result<(), RelationalError>')),
+    # which index kinds a column has is symbolic (stable names: a branch condition must not be fresh per execution)
+    'RelationalEngine::has_index': lambda c: z3.Bool('has_hash_index[' + str(getattr(_deref(c.st, c.args[2]), 'id', '?')) + ']'),
+    'RelationalEngine::has_btree_index': lambda c: z3.Bool('has_btree_index[' + str(getattr(_deref(c.st, c.args[2]), 'id', '?')) + ']'),
     'RelationalEngine::index_remove': rec('index_remove', _ok_(UNIT, 'Result<(), RelationalError>')), 'RelationalEngine::index_add': rec('index_add', _ok_(UNIT, 'Result<(), RelationalError>')),
     'RelationalEngine::btree_index_remove': rec('btree_remove', _ok_(UNIT, 'Result<(), RelationalError>')), 'RelationalEngine::btree_index_add': rec('btree_add', _ok_(UNIT, 'Result<(), RelationalError>')),
 })
